@@ -104,6 +104,9 @@ func writeSites(fn *ssa.Function) []writeSite {
 		ws := writeSite{call: ci, method: method, sb: args[0], arg: args[1]}
 		if f, ops, ok := sprintfOf(args[1]); ok {
 			ws.format, ws.args, ws.isFmt = f, ops, true
+		} else if f, ops, ok := concatTemplate(args[1]); ok {
+			// "a" + x + "b"  is treated like Sprintf("a%sb", x)
+			ws.format, ws.args, ws.isFmt = f, ops, true
 		} else if s, ok := strConst(args[1]); ok {
 			ws.format, ws.konst = s, true
 		} else if c, ok := args[1].(*ssa.Const); ok && c.Value != nil && c.Value.Kind() == constant.Int {
@@ -118,3 +121,51 @@ func writeSites(fn *ssa.Function) []writeSite {
 }
 
 func q(s string) string { return strconv.Quote(s) }
+
+// concatTemplate flattens a chain of string concatenations with at least one constant
+// piece into a Sprintf-like template: constants are copied ('%' doubled), other pieces
+// become %s (%d for strconv.Itoa(x), with x as the operand).
+func concatTemplate(v ssa.Value) (string, []ssa.Value, bool) {
+	bo, ok := v.(*ssa.BinOp)
+	if !ok || bo.Op.String() != "+" {
+		return "", nil, false
+	}
+	var pieces []ssa.Value
+	var flat func(x ssa.Value)
+	flat = func(x ssa.Value) {
+		if b, ok := x.(*ssa.BinOp); ok && b.Op.String() == "+" {
+			flat(b.X)
+			flat(b.Y)
+			return
+		}
+		pieces = append(pieces, x)
+	}
+	flat(v)
+	format := ""
+	var ops []ssa.Value
+	nConst := 0
+	for _, p := range pieces {
+		if s, ok := strConst(p); ok {
+			nConst++
+			for _, r := range s {
+				if r == '%' {
+					format += "%%"
+				} else {
+					format += string(r)
+				}
+			}
+			continue
+		}
+		if call, ok := p.(*ssa.Call); ok && calleeName(call) == "strconv.Itoa" {
+			format += "%d"
+			ops = append(ops, call.Call.Args[0])
+			continue
+		}
+		format += "%s"
+		ops = append(ops, p)
+	}
+	if nConst == 0 {
+		return "", nil, false
+	}
+	return format, ops, true
+}
